@@ -53,11 +53,11 @@ let run (path : string) =
   let pgs : Gauge.gauge list ref = ref [] and pxs : (int * Gauge.ext) list ref = ref [] and pbs : (int * BinNums.coq_Z) list ref = ref [] in
   (* the step being read *)
   let op : string list ref = ref [] in
-  let farm = Hashtbl.create 8 and calc = Hashtbl.create 8 and recv = Hashtbl.create 8 and xenv = Hashtbl.create 8 in
+  let farm = Hashtbl.create 8 and calc = Hashtbl.create 8 and recv = Hashtbl.create 8 and xenv = Hashtbl.create 8 and lenv = Hashtbl.create 8 in
   let res = ref "" and pays : (string * string * string) list ref = ref [] and split : string list option ref = ref None in
   let gs : (int * Gauge.gauge) list ref = ref [] and es : Gauge.epoch list ref = ref [] and xs : (int * Gauge.ext) list ref = ref [] in
   let bs : (int * BinNums.coq_Z) list ref = ref [] in
-  let reset_step () = op := []; Hashtbl.reset farm; Hashtbl.reset calc; Hashtbl.reset recv; Hashtbl.reset xenv; res := ""; pays := [];
+  let reset_step () = op := []; Hashtbl.reset farm; Hashtbl.reset calc; Hashtbl.reset recv; Hashtbl.reset xenv; Hashtbl.reset lenv; res := ""; pays := [];
     split := None; gs := []; es := []; xs := []; bs := [] in
   let end_case () =
     if !case <> "" then begin
@@ -134,16 +134,21 @@ let run (path : string) =
            | tot :: n :: rest -> let (g3, _) = groups 3 (int_of_string n) rest in
              { Gauge.xe_total = zs tot; xe_pop = L.map (function [a; net; cr] -> ((zs a, zs net), zs cr) | _ -> failwith "xenv") g3 }
            | _ -> failwith "xenv line") in
-       let benv = { Gauge.be_farm = farms; be_recv = recvs; be_ext = xenvs } in
+       let lenvs = L.init nx (fun i -> match (try Hashtbl.find lenv i with Not_found -> ["0"; "0"; "noprice"]) with
+           | ok :: n :: rest -> let (g2, rest') = groups 2 (int_of_string n) rest in
+             { Gauge.le_ok = bool_of_tok ok; le_new = L.map (function [a; v] -> (zs a, zs v) | _ -> failwith "lenv") g2;
+               le_price = (match rest' with "price" :: twa :: dec :: _ -> Some (zs twa, zs dec) | _ -> None) }
+           | _ -> failwith "lenv line") in
+       let benv = { Gauge.be_farm = farms; be_recv = recvs; be_ext = xenvs; be_lend = lenvs } in
        let o = Gauge.Begin (now, benv) in
        if not (Gauge.op_wf o) then cmpf "env.recv_nonneg" "true" "false";
        (* known-finding classes met by this step (on the state it starts from) *)
-       let k2 = Gauge.kf2_begin now benv m and k3 = Gauge.kf3_begin now benv m in
-       if !dirty = "none" then (if k2 then dirty := "kf_C19_2" else if k3 then dirty := "kf_C19_3");
-       if k2 then bump "kf:C19_2:met"; if k3 then bump "kf:C19_3:met";
+       let k2 = Gauge.kf2_begin now benv m and k3 = Gauge.kf3_begin now benv m and k4 = Gauge.kf4_begin now benv m in
+       if !dirty = "none" then (if k2 then dirty := "kf_C19_2" else if k3 then dirty := "kf_C19_3" else if k4 then dirty := "kf_C19_4");
+       if k2 then bump "kf:C19_2:met"; if k3 then bump "kf:C19_3:met"; if k4 then bump "kf:C19_4:met";
        (* the input-delimited sufficient condition of c19_program_safe, per program that is due *)
        L.iteri (fun i (x : Gauge.ext) ->
-           if x.Gauge.x_active && BinInt.Z.ltb x.Gauge.x_next now then begin
+           if x.Gauge.x_active && BinInt.Z.ltb x.Gauge.x_next now && BinInt.Z.ltb x.Gauge.x_kind (zi 2) then begin
              let e = L.nth xenvs i in
              let safe = Gauge.ext_safe e x in
              bump (if safe then "program:safe-condition" else "program:outside-safe-condition");
@@ -231,6 +236,7 @@ let run (path : string) =
       | "calc" :: i :: rest -> Hashtbl.replace calc (int_of_string i) rest
       | "recv" :: i :: rest -> Hashtbl.replace recv (int_of_string i) rest; Buffer.add_string sig_ line
       | "xenv" :: i :: rest -> Hashtbl.replace xenv (int_of_string i) rest; Buffer.add_string sig_ line
+      | "lenv" :: i :: rest -> Hashtbl.replace lenv (int_of_string i) rest; Buffer.add_string sig_ line
       | "res" :: c :: _ -> res := c
       | "pay" :: d :: a :: v :: _ -> pays := (d, a, v) :: !pays
       | "split" :: rest -> split := Some rest
